@@ -14,7 +14,7 @@ Obligations that can be reported (witness keys in brackets)
   rt/Image.update_into_maskable_buffer/undefined-source-keeps-old
   rt/Image.update_into_maskable_buffer/defined-source-wins   (colour, float; and every mode
                                                               when the old cell was undefined)
-  rt/Image.update_into_maskable_buffer/integer-keeps-larger
+  rt/Image.update_into_maskable_buffer/integer-keeps-larger  (both defined, any signs: max(old, src))
   rt/Image.update_into_maskable_buffer/raises            [kind=update, same keys + old_content,
                                                           src_mask/old_mask for the 2x2 family]
   rt/Image.clear/all-undefined                           [kind=clear, mode, buf_shape, seed]
@@ -29,6 +29,7 @@ Indexers in a witness are ["slice", start, stop, step] or ["index", [..]].
 ``all-zero-integer-tile-not-stored`` is the integer instance of "a tile whose pixels are all
 undefined is never stored" (the statement defines zero as undefined for integer data); it
 has its own name so that it cannot mask, or be masked by, the float/colour instance.
+Witnesses of I16/I32 cases carry negative=true when the data contain negative values.
 
 Bounds
   quick   : every rectangle (all sizes and positions) of a 3x3 image into a 4x4 buffer x
@@ -74,13 +75,9 @@ O_R_RAISE = "rt/PyramidIO.read_image/raises"
 
 MASKABLE = [m for m in M.MODES if m != "RGB"]
 
-# The statement calls zero "undefined" for integer data and says that a tile whose pixels
-# are all undefined is never stored.  Read literally this covers an all-zero U8/I16/I32 tile
-# (the pinned tree stores such tiles: Image.is_completely_masked() is False for integer
-# modes).  The integer instance is reported under its own obligation name (O_W_INTZERO); set
-# this to False to restrict "never stored" to the modes with a dedicated undefined value
-# (alpha 0 / NaN), in which case an all-zero integer tile must read back like any other tile.
-INTEGER_ZERO_TILE_COUNTS_AS_UNDEFINED = True
+# The statement calls zero "undefined" for integer data, so an all-zero U8/I16/I32 tile is a
+# tile whose pixels are all undefined: it must not be stored.  The integer instance keeps its
+# own obligation name (O_W_INTZERO) -- it was a defect of the pinned tree, repaired by e77996c.
 
 
 def mk_indexer(d):
@@ -117,7 +114,7 @@ def check_buffer_case(spec):
     H, W = spec["img_shape"]
     BH, BW = spec["buf_shape"]
     nprng = np.random.default_rng(spec["seed"])
-    src = M.random_array(mode, H, W, nprng, kind=spec.get("content", "mixed"), dirty=bool(spec.get("dirty")))
+    src = M.random_array(mode, H, W, nprng, kind=spec.get("content", "mixed"), negative=bool(spec.get("negative")), dirty=bool(spec.get("dirty")))
     points = spec["by"][0] == "index" and spec["bx"][0] == "index"
     srows, scols = addressed(H, spec["iy"]), addressed(W, spec["ix"])
     brows, bcols = addressed(BH, spec["by"]), addressed(BW, spec["bx"])
@@ -149,7 +146,7 @@ def check_buffer_case(spec):
             if spec["src_mask"] >> k & 1:
                 src[sr, sc] = M.undef_value(mode)
             elif np.all(M.undef_mask(mode, src[sr:sr + 1, sc:sc + 1])):
-                src[sr, sc] = 7
+                src[sr, sc] = -7 if spec.get("negative") and k % 2 else 7
     addr = np.zeros((BH, BW), bool)
     addr[bsel] = True
     src_before = src.copy()
@@ -181,7 +178,7 @@ def check_buffer_case(spec):
 
     if spec["kind"] == "fill":
         # the buffer starts with arbitrary defined garbage: fill must mark the rest undefined
-        garbage = M.random_array(bmode, BH, BW, nprng, kind="full")
+        garbage = M.random_array(bmode, BH, BW, nprng, kind="full", negative=bool(spec.get("negative")))
         buf._as_writeable_array()[...] = garbage
         try:
             img.fill_into_maskable_buffer(buf, *idx)
@@ -199,14 +196,14 @@ def check_buffer_case(spec):
             (br, bc, sr, sc), (r, c) = first(~ok)
             return [(O_F_CELLS, "buffer cell (%d,%d) = %r, source pixel (%d,%d) = %r" % (br, bc, _px(got, br, bc), sr, sc, _px(V, r, c)))]
     else:
-        old = M.random_array(bmode, BH, BW, nprng, kind=spec.get("old_content", "mixed"), dirty=bool(spec.get("dirty")))
+        old = M.random_array(bmode, BH, BW, nprng, kind=spec.get("old_content", "mixed"), negative=bool(spec.get("negative")), dirty=bool(spec.get("dirty")))
         if "old_mask" in spec:
             for k in range(ncells):
                 br, bc, sr, sc = cell(k)
                 if spec["old_mask"] >> k & 1:
                     old[br, bc] = M.undef_value(bmode)
                 elif M.undef_mask(bmode, old[br:br + 1, bc:bc + 1])[0, 0]:
-                    old[br, bc] = 9
+                    old[br, bc] = -9 if spec.get("negative") and k >= 2 else 9
         buf._as_writeable_array()[...] = old
         try:
             img.update_into_maskable_buffer(buf, *idx)
@@ -319,10 +316,8 @@ def check_persist(spec, workdir):
                 return [bad + ({"step": -1},)]
 
         for k, content in enumerate(spec["steps"]):
-            arr = M.random_array(mode, H, W, nprng, kind=content, dirty=bool(spec.get("dirty")))
+            arr = M.random_array(mode, H, W, nprng, kind=content, negative=bool(spec.get("negative")), dirty=bool(spec.get("dirty")))
             all_undef = bool(np.all(M.undef_mask(mode, arr)))
-            if mode in M.INT_MODES and not INTEGER_ZERO_TILE_COUNTS_AS_UNDEFINED:
-                all_undef = False
             tag = "step %d (%s)" % (k, content)
             try:
                 pio.write_image(pos, Image.from_array(arr.copy(), default_format=fmt), **kw)
@@ -505,10 +500,13 @@ def run(ctx):
     ctx.bound("persistence: every mode x lossless format able to hold it (png: RGB RGBA; npy: all; fits: U8 I16 I32 F32 F64) x prior file state "
               "{absent, stale defined tile, stale foreign bytes} x %d histories of 1..3 writes (contents: %s); both path schemes" % (nhist, sorted(set(contents))))
     ctx.assume("numpy .npy, PIL PNG and astropy.io.fits codecs are lossless for the modes they are used with")
-    ctx.assume("integer data handed to update are non-negative (precondition stated by the property)")
+    ctx.note("signed integer data (I16/I32) are negative in about half of the cases: an undefined (0) source never changes a cell, an undefined cell takes the source, two defined values keep the larger")
     ctx.note("update_into_maskable_buffer with integer-array indexers is outside the explored domain (not a rectangle indexer; "
              "numpy fancy indexing returns a copy there, so such an update would be lost)")
 
+    for sp in specs:
+        if sp["mode"] in ("I16", "I32") and rng.random() < 0.5:
+            sp["negative"] = True
     rng.shuffle(specs)
     per = 1500 if ctx.thorough else 500
     batches = M.chunks(specs, per)
